@@ -205,3 +205,21 @@ Proof.
     + exact E.
     + now apply list_beq_eq.
 Qed.
+
+(* ---------- C15_table_is_rfc ---------- *)
+
+Theorem table_is_rfc :
+  huffman_codes = rfc_codes /\ huffman_code_len = rfc_code_len /\
+  length rfc_codes = 256%nat /\ length rfc_code_len = 256%nat /\
+  rfc_eos_len = 30 /\ rfc_eos_code = 2 ^ 30 - 1 /\ eos_bits = repeat true 30 /\
+  is_canonical rfc_codes_eos rfc_lens_eos /\
+  kraft_sum rfc_lens_eos = 2 ^ 30 /\
+  prefix_free code_words.
+Proof.
+  split; [exact codes_eq|]. split; [exact lens_eq|].
+  split; [reflexivity|]. split; [reflexivity|].
+  split; [reflexivity|]. split; [reflexivity|].
+  split; [exact eos_bits_ones|].
+  split; [exact rfc_is_canonical|].
+  split; [exact kraft_complete | exact code_words_prefix_free].
+Qed.
